@@ -62,6 +62,8 @@ def contexts(E, n, in_t):
         "arrsize_t": ("tdecl", "int At%d[%s];" % (n, E)),
         "range_t": ("tdecl", "int[0,%s] Rt%d;" % (E, n)),
         "init_t": ("tdecl", "int It%d = %s;" % (n, E)),
+        "init_t_double": ("tdecl", "double Dt%d = %s * 0.5;" % (n, E)),
+        "init_t_bool": ("tdecl", "bool Bt%d = %s > 0;" % (n, E)),
         "select_dom": ("select", "ks%d : int[0,%s]" % (n, E)),
         "quant_dom": ("assign", "b = forall (k : int[0,%s]) true" % E),
     }
@@ -72,6 +74,11 @@ def contexts(E, n, in_t):
             "range_g": ("gdecl", "int[0,%s] Rg%d;" % (E, n)),
             "scalar_g": ("gdecl", "typedef scalar[%s] SS%d; SS%d sv%d;" % (E, n, n, n)),
             "init_g": ("gdecl", "int Ig%d = %s;" % (n, E)),
+            # an initialiser is an initialiser whatever the type of the variable
+            "init_g_double": ("gdecl", "double Dg%d = %s * 0.5;" % (n, E)),
+            "init_g_bool": ("gdecl", "bool Bg%d = %s > 0;" % (n, E)),
+            "init_g_array": ("gdecl", "int Ga%d[2] = { %s, 0 };" % (n, E)),
+            "init_g_record": ("gdecl", "struct { int a; int b; } Gs%d = { 1, %s };" % (n, E)),
             "init_meta": ("gdecl", "meta int Im%d = %s;" % (n, E)),
             "iter_dom": ("gdecl", "void Gi%d() { for (it : int[0,%s]) { } }" % (n, E)),
             "valarg": ("system", "Va%d = TV(%s);" % (n, E)),
@@ -163,7 +170,7 @@ def run(tier):
     c.cov["traces_validated_against_impl"] = len(cases) + len(inst)
     c.cov["evaluations"] = len(cases) + len(inst)
     c.cov["distinct_nontrivial"] = nontrivial
-    c.cov["rule"] = "every dependence chain (6 leaves x link sequences of length<=3 over {const init, function return, function local, by-value call, template-level const}) in each of 14 compile-time contexts; 24 template-parameter/instantiation chains; non-trivial = semantics says not computable / must be rejected"
+    c.cov["rule"] = "every dependence chain (6 leaves x link sequences of length<=3 over {const init, function return, function local, by-value call, template-level const}) in each of 20 compile-time contexts; 24 template-parameter/instantiation chains; non-trivial = semantics says not computable / must be rejected"
     c.cov["exhaustive"] = True
     for k in (0, len(cases) // 2, len(cases) - 1):
         ch, ctx, g, t = info[cases[k]["id"]]
